@@ -33,7 +33,7 @@ class Check(RecordingCheck):
 
     def correspond(self):
         n = 50 if self.tier == "quick" else 900
-        self.mismatches = self.correspond_ops(n, 0.8, "C22")
+        self.mismatches = self.correspond_ops(n, 0.8, f"C22_{os.getpid()}")
 
     # ------------------------------------------------------------------ oracle (a): retried operations
     def oracle_idempotence(self, work):
